@@ -135,7 +135,7 @@ def windowDown (ds : Array Nat) (strord : Option (Array Int)) (strord0 : Int) :
     let d := ds[idx0]!
     let higher := match strord with
       | none => false
-      | some s => d < ds.size && decide (s[d]! > strord0)
+      | some s => decide (s[d]! > strord0)
     if d = idx0 ∨ d = ds.size ∨ higher = true then acc.reverse
     else windowDown ds strord strord0 k d (d :: acc)
 
